@@ -248,6 +248,9 @@ impl PendingSubscriptionSink {
 		self.inner.send(response.to_json()).await.map_err(|_| PendingSubscriptionAcceptError)?;
 		self.subscribe.send(response).map_err(|_| PendingSubscriptionAcceptError)?;
 
+		#[cfg(jsonrpsee_verif)]
+		crate::verif_hooks::point("server:sub:accept:before_insert").await;
+
 		if success {
 			let (tx, rx) = mpsc::channel(1);
 			self.subscribers.lock().insert(self.uniq_sub.clone(), (self.inner.clone(), rx));
@@ -344,6 +347,8 @@ impl SubscriptionSink {
 		}
 
 		let json = sub_message_to_json(msg, &self.uniq_sub.sub_id, self.method);
+		#[cfg(jsonrpsee_verif)]
+		crate::verif_hooks::point("server:sub:send:after_closed_check").await;
 		self.inner.send(json).await
 	}
 
